@@ -559,6 +559,11 @@ func runC19(c *Ctx) {
 		}
 	}
 
+	// ---------------------------------------------------------------- R11
+	c.rule("R11", "one bad entry never costs the others, a block never exceeds what the reader accepts, and two dumps never write the file at once (Close stops the dump loop first)", 4)
+	checkDumpSkipsBadEntries(c, limit)
+	checkCloseStopsDumpLoopFirst(c)
+
 	// ---------------------------------------------------------------- R10
 	c.rule("R10", "the writer leaves nothing out: every entry that is not expired is appended to a block, the last partial block is written, and the reader's block limit is a small constant", 3)
 	if rangeFn != nil {
